@@ -40,12 +40,20 @@ pub enum Call {
     GardeTwoErrors,
     ProbePanic,
     ProbeError,
+    /// fails (syntax error) after several aliases of one anchor have been expanded
+    FailAfterAliases,
+    /// fails (type error) deep inside nested containers after replaying a nested alias chain
+    FailDeepInReplay,
+    /// every resource limit set exactly at this document's usage: must succeed
+    LimitsExactlyAtUsage,
+    /// same document, per-anchor expansion limit one below the usage: must fail the same way every time
+    PerAnchorLimitBelowUsage,
     /// outer document with three nest points; the inner call runs at nest point k (3 = never)
     NestRc { k: u8, inner: Box<Call> },
     NestRecursive { k: u8, inner: Box<Call> },
 }
 
-pub const BASIC: [Call; 24] = [
+pub const BASIC: [Call; 28] = [
     Call::OkCfg,
     Call::OkJsonAnchors,
     Call::FailMidAnchor,
@@ -70,6 +78,10 @@ pub const BASIC: [Call; 24] = [
     Call::GardeTwoErrors,
     Call::ProbePanic,
     Call::ProbeError,
+    Call::FailAfterAliases,
+    Call::FailDeepInReplay,
+    Call::LimitsExactlyAtUsage,
+    Call::PerAnchorLimitBelowUsage,
 ];
 
 // ------------------------------------------------------------------------------------------------
@@ -396,6 +408,36 @@ pub fn run_call(c: &Call) -> String {
         },
         Call::ProbePanic => res(guard(|| serde_saphyr::from_str::<PanicDoc>("a: &s v\np: &t x\n")), |v| format!("{v:?}")),
         Call::ProbeError => res(guard(|| serde_saphyr::from_str::<ErrDoc>("a: &s v\np: &t x\nb: *s\n")), |v| format!("{v:?}")),
+        Call::FailAfterAliases => res(
+            guard(|| serde_saphyr::from_str::<serde_json::Value>("a: &x [1, 2]\nb: *x\nc: *x\nd: *x\ne: [*x, *x\n")),
+            |v| v.to_string(),
+        ),
+        Call::FailDeepInReplay => res(
+            guard(|| {
+                serde_saphyr::from_str::<std::collections::BTreeMap<String, Vec<Vec<i32>>>>(
+                    "p: &i [[1, 2]]\nq: *i\nr: *i\ns: [[4, 5], [6, oops]]\nt: *i\n",
+                )
+            }),
+            |v| format!("{v:?}"),
+        ),
+        Call::LimitsExactlyAtUsage | Call::PerAnchorLimitBelowUsage => {
+            // usage of this document: anchor x expanded 3 times (3 replayed scalar events), nesting 2
+            let doc = "a: &x v\nb: *x\nc: [*x, *x]\nd: &y [1]\ne: *y\n";
+            #[allow(deprecated)]
+            let opts = {
+                let mut o = serde_saphyr::Options::default();
+                o.alias_limits.max_alias_expansions_per_anchor = if matches!(c, Call::LimitsExactlyAtUsage) { 3 } else { 2 };
+                o.alias_limits.max_total_replayed_events = 6; // 3 scalars + [ 1 ]
+                o.alias_limits.max_replay_stack_depth = 1;
+                let mut b = serde_saphyr::Budget::default();
+                b.max_aliases = 4;
+                b.max_anchors = 2;
+                b.max_depth = 2;
+                o.budget = Some(b);
+                o
+            };
+            res(guard(|| serde_saphyr::from_str_with_options::<serde_json::Value>(doc, opts)), |v| v.to_string())
+        }
         Call::NestRc { k, inner } => {
             NEST.with(|n| n.borrow_mut().push((*k, 0, (**inner).clone())));
             let r = guard(|| serde_saphyr::from_str::<NestDoc>(NEST_RC_DOC));
@@ -499,6 +541,20 @@ fn run_history(h: &[Call]) -> ThreadOut {
     ThreadOut {
         results,
         callbacks: CALLBACKS.with(|c| *c.borrow()),
+    }
+}
+
+/// Debugging aid: print what each call of a single-thread history returns and its isolation entry.
+pub fn show(c: &HistoryCase) {
+    for h in &c.threads {
+        let h2 = h.clone();
+        let o = fresh(move || run_history(&h2));
+        for (call, own, inner) in o.results {
+            println!("{} => {own}\n    isolated: {:?}", short_call(&call), isolated(&call));
+            for (ic, ir) in inner {
+                println!("    nested {} => {ir}", short_call(&ic));
+            }
+        }
     }
 }
 
@@ -631,7 +687,7 @@ fn short_call(c: &Call) -> String {
 // Generation
 
 /// calls used as inner calls of nestings and in exhaustive histories
-pub const CORE: [Call; 12] = [
+pub const CORE: [Call; 15] = [
     Call::OkCfg,
     Call::FailMidAnchor,
     Call::RcShare,
@@ -644,6 +700,9 @@ pub const CORE: [Call; 12] = [
     Call::IterHalf,
     Call::ProbePanic,
     Call::SerShared,
+    Call::FailAfterAliases,
+    Call::LimitsExactlyAtUsage,
+    Call::PerAnchorLimitBelowUsage,
 ];
 
 fn all_nestings() -> Vec<Call> {
